@@ -16,7 +16,7 @@ SEMANTIC = [
     "possible arithmetic underflow/overflow", "invariant not satisfied", "possible division by zero",
     "decreases not satisfied", "could not prove termination", "index out of bounds",
     "possible bit shift underflow/overflow", "unreachable", "recommendation not met",
-    "loop invariant", "failed this", "may be out of range", "precondition not met",
+    "loop invariant", "failed this", "may be out of range", "precondition not met", "requires not satisfied",
 ]
 RESOURCE = ["Resource limit", "rlimit", "timed out", "timeout"]
 
@@ -449,8 +449,8 @@ def run_ensures_false(g, meta):
         mres = re.search(r"->\s*\(\s*(\w+)\s*:\s*(?:std::result::)?(?:Migration)?Result\s*<", hm)
         guard = ("%s is Ok ==> false" % mres.group(1)) if mres else "false"
         cp = hm.split("\n") + ["        ensures %s, // vacuity guard: this copy must fail" % guard] + body
-        copies[f["last"]] = cp
-        names[short + "_vac_"] = fn
+        copies[f["last"]] = (fn, cp)
+        names[fn] = fn
     if not copies:
         return dict(checked=0, vacuous=[])
     out_lines, spans = [], {}
@@ -458,8 +458,8 @@ def run_ensures_false(g, meta):
         out_lines.append(ln)
         if i_ in copies:
             a = len(out_lines) + 1
-            out_lines.extend(copies[i_])
-            spans[(a, len(out_lines))] = [k for k, v in names.items() if v == [fn_ for fn_, f_ in fns.items() if f_["last"] == i_ and fn_ in by_fn][0]][0]
+            out_lines.extend(copies[i_][1])
+            spans[(a, len(out_lines))] = copies[i_][0]
     path = os.path.join(BUILD, g.unit_name + "_vacuity2.rs")
     with open(path, "w") as f:
         f.write("\n".join(out_lines) + "\n")
